@@ -69,7 +69,11 @@ def evaluate(P, cases, impl, model, findings, model_ok):
                 res["violations"].append((case, io, v))
         if model_ok:
             mo = model.get(cid)
-            if mo is None or norm_i(case, io) != norm_m(case, mo):
+            if hasattr(P, "accepts"):
+                agree = mo is not None and P.accepts(case, norm_i(case, io), norm_m(case, mo))
+            else:
+                agree = mo is not None and norm_i(case, io) == norm_m(case, mo)
+            if not agree:
                 kd = P.known_disagreement(case, io, mo, findings) if hasattr(P, "known_disagreement") else None
                 if kd:
                     res["known"].setdefault(kd, []).append((case, io, "model/impl differ as recorded"))
